@@ -41,6 +41,36 @@ CHECKS.update({
    note="Trusted: TLC, Json module, harness. slice with l < -len is outside the stated domain and skipped.",
    technique="TLA+ operators and defer/take_while_p state machines model-checked with TLC + TLC validation of implementation records (exhaustive index/shape domains)"),
 })
+VFS_NOTE = "Trusted: TLC, Json module, the projection (Debug parser in harness/src/memproj.rs; std::fs observer in harness/src/bin/grid.rs), the harness' syntactic canonical-argument shortcut. Bounded: names {a,b} x depth 2 for fix-points, names {a,b,c} x depth 3 for random histories. DECISIONS D1-D11 (spec/Vfs.tla, spec/VfsJudge.tla): outcomes the documentation leaves open are accepted either way."
+CHECKS.update({
+ "C01": dict(level=MC, ref="DESIGN.md 5/C01",
+   text="Vfs.tla is the reference tree filesystem (one operator per trait method, written from the rustdoc); MC_Vfs explores it to a reachability fix-point over the bounded namespace with FailedCallAtomic, WriteLaw, AppendLaw, MoveIsRelocation, CopyLaw, SymlinkLaw, RemoveLaw as action properties. The REAL Memfs is explored to its own fix-point over the same alphabet (BFS by projection), every transition {pre, call, result, post} is judged by TLC against the same operators (result incl. documented error kind, full post-state), the reachable-set counts are compared (361 / 6859 on both sides), and long seeded histories with respelled arguments are validated step by step.",
+   note=VFS_NOTE, technique="TLA+ reference state machine model-checked with TLC + TLC validation of every transition of a BFS over the real implementation + trace validation of random histories"),
+ "C02": dict(level=MC, ref="DESIGN.md 5/C02",
+   text="Every tree of the bounded namespace in C02's domain (361 link-free + 1630 one-link trees) is materialised with std::fs in a tmpfs sandbox and built on a fresh Memfs; every call of the alphabet (~300 per tree) runs on both backends; TLC compares outcome, value and observed post-tree of the two sides (Trace_Pair) and judges each side against the Vfs reference operators to name the deviating side.",
+   note=VFS_NOTE + " tmpfs, umask 022, euid 0 (thorough: also uid 65534). Owners are not compared. One recorded finding (KF-A27-dir).",
+   technique="differential TLC validation of paired implementation records against each other and against the TLA+ reference (exhaustive trees x calls)"),
+ "C03": dict(level=MC, ref="DESIGN.md 5/C03",
+   text="MemfsRep!RepViolation states C03 clause by clause over Memfs' three indexes (entries, files, child sets) plus cwd/root/poison; TLC evaluates it on the Debug-projected representation after EVERY step - successful or failed - of the BFS of the real Memfs and of seeded histories in which half of the arguments are out of domain (through links, below files, root, '..' chains, odd strings); MC_Vfs shows TreeOK is an invariant of the reference; AbsOf is the refinement mapping used for the step check.",
+   note=VFS_NOTE + " Quiescent states after concurrent schedules are judged with the same operator by C04.",
+   technique="TLA+ representation invariant + refinement mapping evaluated by TLC on every logged implementation state (BFS + adversarial histories)"),
+ "C06": dict(level=MC, ref="DESIGN.md 5/C06",
+   text="MC_Data checks the line-helper round trip, one-newline-per-line, append-keeps-prefix and UTF-8 concatenation on every line list of the bound; MC_Vfs checks WriteLaw/AppendLaw (only that file changes) on every reachable state; seeded histories interleaving write/append/line helpers/copy/move over four files with empty, multi-byte, invalid UTF-8, newline-laden and multi-kilobyte data read two files back after every step and TLC compares with the byte-vector model.",
+   note=VFS_NOTE + " Handle-based writes are decided by C07; the Stdfs side by C02.",
+   technique="TLA+ byte-vector model (Vfs.tla content operators, Lines, Utf8Valid) model-checked with TLC + trace validation of data histories"),
+ "C09": dict(level=MC, ref="DESIGN.md 5/C09",
+   text="MC_Vfs checks CopyLaw (source untouched, every source entry recreated with same kind/content/target/mode-when-new, nothing outside the destination changes), MoveIsRelocation and FailedCallAtomic on every reachable tree x every ordered pair; the real Memfs is driven over every reachable tree x all 49 ordered pairs x copy / move_p / copy_b(chmod_all|dirs|files) and TLC judges the before/after snapshots.",
+   note=VFS_NOTE + " copy with follow(true) is not judged (placement of followed entries, DESIGN A24, is recorded as open); Stdfs copy/move are compared in C02.",
+   technique="TLA+ action properties model-checked with TLC + TLC validation of before/after snapshots of the real copy/move over exhaustive (tree, src, dst, option) tuples"),
+ "C10": dict(level=MC, ref="DESIGN.md 5/C10",
+   text="MC_Vfs checks SymlinkLaw / RemoveLaw on every reachable state; the real Memfs runs the (link position, target position) grid over names {a,b} depth <= 3 x target kind {file, dir, missing} x {absolute, relative} spelling, each followed by readlink, readlink_abs, is_*, entry accessors incl. follow(true) twice, chmod/chown without follow, readlink on a non-link and remove of the link; TLC judges every step (RelC navigation law, link exclusion, target untouched).",
+   note=VFS_NOTE + " Stdfs side: C02 (same queries in its alphabet).",
+   technique="TLA+ reference operators + TLC trace validation of the exhaustive link/target grid on the real implementation"),
+ "C13": dict(level=MC, ref="DESIGN.md 5/C13",
+   text="The specification has no notion of route: the same seeded histories (random with respelled arguments, link grid, data) are executed on Memfs directly and through Vfs::Memfs; both transcripts are validated by Trace_Vfs and compared event for event; every entry() result carries the VfsEntry accessors next to the wrapped entry's own accessors (wrap flag judged by TLC); a table check makes sure every trait method is exercised through both routes by some check.",
+   note=VFS_NOTE + " Vfs::Stdfs routing rides on C02 (the grid calls Stdfs through the trait).",
+   technique="TLC trace validation of paired transcripts (direct vs enum route) + event-wise transcript equality"),
+})
 NOT_YET = {}
 
 def main():
